@@ -2145,9 +2145,47 @@ def init_only_attrs(trees):
     return _INIT_ONLY
 
 
+def _reuse_dead_names(fn):
+    """v = p   at the top level of fn, p (a parameter or local) never mentioned after that statement and v never before it, neither
+    captured by a nested scope:  the rest of the function uses p's slot under another name - rename v to p and drop the copy"""
+    changed = False
+    for _ in range(4):
+        hit = None
+        for i, s in enumerate(fn.body):
+            if not (isinstance(s, ast.Assign) and len(s.targets) == 1 and isinstance(s.targets[0], ast.Name) and isinstance(s.value, ast.Name) and s.value.id != s.targets[0].id):
+                continue
+            v, p_ = s.targets[0].id, s.value.id
+            after = [x for st in fn.body[i + 1:] for x in ast.walk(st)]
+            before = [x for st in fn.body[:i] for x in ast.walk(st)]
+            if any(isinstance(x, ast.Name) and x.id == p_ for x in after) or any(isinstance(x, ast.Name) and x.id == v for x in before):
+                continue
+            if any(isinstance(x, ast.arg) and x.arg in (v, p_) for x in after + before) or any(isinstance(x, (ast.Global, ast.Nonlocal)) and (v in x.names or p_ in x.names) for x in ast.walk(fn)):
+                continue
+            scopes = [x for x in after + before if isinstance(x, (ast.FunctionDef, ast.AsyncFunctionDef, ast.Lambda, ast.ClassDef, ast.ListComp, ast.SetComp, ast.DictComp, ast.GeneratorExp))]
+            if any(isinstance(y, ast.Name) and y.id in (v, p_) for sc in scopes for y in ast.walk(sc)):
+                continue
+            if any(isinstance(x, ast.ExceptHandler) and x.name in (v, p_) for x in after + before):
+                continue
+            hit = (i, v, p_)
+            break
+        if hit is None:
+            break
+        i, v, p_ = hit
+        for st in fn.body[i + 1:]:
+            for x in ast.walk(st):
+                if isinstance(x, ast.Name) and x.id == v:
+                    x.id = p_
+        del fn.body[i]
+        if not fn.body:
+            fn.body.append(ast.Pass())
+        changed = True
+    return changed
+
+
 def explain_vars(fn):
     """substitute `v = <pure expr>` (v assigned once, in a straight statement list) into the uses that follow in the same list,
     when nothing between the definition and a use can change what the expression reads"""
+    _reuse_dead_names(fn)
     # a, b = (x, y)  ->  a = x; b = y   (x, y do not read a or b)
     paired = set()  # the two arms of `if c: a, b = X else: a, b = Y` stay whole: together they are one conditional assignment
     for n_ in _walk_same_function(fn):
@@ -3035,7 +3073,7 @@ def unroll_const_loops(tree):
                 # for a, b in ((a1, b1), (a2, b2), ..): B   (the table in place, or a local written just before and used for nothing else;
                 # each of a, b read at most once in B)
                 if isinstance(s, ast.For) and not s.orelse and isinstance(s.target, ast.Tuple) and all(isinstance(e, ast.Name) for e in s.target.elts) and len(s.body) <= 3 \
-                        and not any(isinstance(x, (ast.Break, ast.Continue, ast.Return, ast.Yield, ast.YieldFrom)) for b in s.body for x in ast.walk(b)):
+                        and not any(isinstance(x, (ast.Break, ast.Continue)) for b in s.body for x in ast.walk(b)):  # a return / yield in the body does the same in the unrolled sequence
                     table, prev = s.iter, None
                     if isinstance(table, ast.Name) and out and isinstance(out[-1], ast.Assign) and len(out[-1].targets) == 1 and isinstance(out[-1].targets[0], ast.Name) and out[-1].targets[0].id == table.id \
                             and sum(1 for x in ast.walk(n) if isinstance(x, ast.Name) and x.id == table.id) == 2:
